@@ -331,22 +331,53 @@ def op_rlp(F, m, root, ties, ctx, default_root=False):
 
 # ---------------------------------------------------------------------------
 # strategies
+SIZES = [1, 2, 3, 3, 4, 4, 5, 6, 8, 10]
+_DENS = st.sampled_from([0.25, 0.5, 0.75, 1.0])
+_UNIT = st.lists(st.floats(0, 1, allow_nan=False), min_size=30, max_size=30)
+_TGT = st.lists(st.integers(0, 9), min_size=30, max_size=30)
+
+
 @st.composite
-def automaton_case(draw, max_n=10, max_l=3, routes=ROUTES + ["dict_hidden"]):
-    n = draw(st.sampled_from([1, 2, 3, 3, 4, 4, 5, 6, 8, 10][:max(1, min(10, max_n + 2))]))
-    n = min(n, max_n)
+def automaton_case(draw, max_n=10, max_l=3, routes=ROUTES + ["dict_hidden"], sizes=SIZES):
+    n = min(draw(st.sampled_from(sizes)), max_n)
     nl = draw(st.integers(1, max_l))
-    dens = draw(st.sampled_from([0.25, 0.5, 0.75, 1.0]))
-    graph = []
+    dens = draw(_DENS)
     sink = draw(st.integers(-2, n - 1))      # a vertex forced to have no outgoing edges
+    u, t = draw(_UNIT), draw(_TGT)
+    graph = []
     for v in range(n):
         nb = []
-        for l in "abc"[:nl]:
-            if v != sink and draw(st.floats(0, 1, allow_nan=False)) < dens:
-                nb.append([l, draw(st.integers(0, n - 1))])
+        for j, l in enumerate("abc"[:nl]):
+            if v != sink and u[v * 3 + j] < dens:
+                nb.append([l, t[v * 3 + j] % n])
         graph.append([v, nb])
     return dict(graph=graph, start=draw(st.integers(0, n - 1)),
                 route=draw(st.sampled_from(routes)))
+
+
+_WALKS = st.lists(st.lists(st.integers(0, 11), max_size=12), max_size=6)
+
+
+def walk_words(m, walks, starts):
+    """words that follow the automaton: each integer picks one of the labels leaving the
+    current state (11 = the absent label), so long accepted words and words that go wrong
+    late are frequent"""
+    out = []
+    for j, w in enumerate(walks):
+        if not starts:
+            break
+        v = starts[j % len(starts)]
+        word = []
+        for i in w:
+            nxt = sorted(m.out(v).items()) if v is not None else []
+            if i == 11 or not nxt:
+                word.append(FOREIGN if i == 11 else (m.labels() + [FOREIGN])[i % (len(m.labels()) + 1)])
+                v = m.target(v, word[-1]) if v is not None else None
+            else:
+                l, v = nxt[i % len(nxt)]
+                word.append(l)
+        out.append(word)
+    return out
 
 
 def word_lists(nl, count=8, maxlen=9):
@@ -361,6 +392,7 @@ def walk_case(draw):
     c = draw(automaton_case())
     nl = max(1, len({l for _, nb in c["graph"] for l, _ in nb}))
     c["words"] = draw(word_lists(3))
+    c["walks"] = draw(_WALKS)
     c["as_string"] = draw(st.booleans())
     return c
 
@@ -375,9 +407,13 @@ def body_walk(case, ctx):
         ctx.label("hidden-vertices")
     check_views(F, m, ctx, where="after construction")
     alphabet = m.labels() + [FOREIGN]
-    words = words_upto(alphabet, 3 if len(alphabet) <= 3 else 2) + [list(w) for w in case["words"]]
+    words = words_upto(alphabet, 3 if len(alphabet) <= 3 else 2) + \
+        [list(w) for w in case["words"]] + \
+        walk_words(m, case.get("walks", []), [m.start[0]] + m.verts)
     if any(len(w) > 4 and m.follow(w, m.start[0])[0] is not None for w in words):
         ctx.label("long-accepted-word")
+    if any(len(w) > 4 and 2 < m.follow(w, m.start[0])[1] < len(w) for w in words):
+        ctx.label("long-word-rejected-late")
     walk_queries(F, m, words, m.verts, ctx, as_string=case["as_string"])
     check_views(F, m, ctx, where="after the queries")
 
@@ -490,7 +526,7 @@ def body_recurrent(case, ctx):
 
 @st.composite
 def rlp_case(draw):
-    c = draw(automaton_case(max_n=10))
+    c = draw(automaton_case(max_n=10, sizes=[2, 3, 4, 5, 6, 6, 8, 8, 10, 10]))
     c["ties"] = draw(st.booleans())
     c["query_first"] = draw(st.booleans())
     c["default_root"] = draw(st.integers(0, 3)) == 0
